@@ -188,6 +188,8 @@ class RepeatedNodeWrapper(MutableSequence[_M]):
             assert not isinstance(value, Iterable)
             index = indexes.range_from_index(index, len(self._repeated.items)).start
             item = self._repeated.items[index]
+            if value is item:
+                return  # a[i] *= 2 ends with a[i] = a[i]: already in place, same as replace_node
             self._repeated.token_store.splice(value.detach(), item.first_token, item.last_token)
             value.reattach(self._repeated.token_store)
             self._repeated.items[index] = value
